@@ -58,6 +58,14 @@ def run(ctx) -> None:
 
     for name_, track_ in (("evo_aspirate", "remove"), ("evo_dispense", "add")):
         ctx.reuse("C02.funnel", c13.same_args, name_, track_)
+    # the worklist methods hand the labware the full requested amounts (every well, unfiltered volumes)
+    from . import c01
+    from .common import concrete_devices
+
+    for dev in concrete_devices(ctx):
+        for meth, track, kind_ in (("aspirate", "remove", "A"), ("dispense", "add", "D")):
+            ctx.reuse("C02.funnel", c01.pair_ad, dev, meth, track, kind_)
+    ctx.reuse("C02.funnel", c01.pair_distribute, "C01.pair-distribute")
     ctx.guard("C02.exception-total", exception_total)
 
 
